@@ -195,7 +195,7 @@ class C10(object):
     id = 'C10'
     rule = ("registry of public callables built by introspection of dit.shannon / multivariate / other / divergences / "
             "algorithms plus explicit recipes (profiles, PID classes, distribution methods, constructors-from-"
-            "distributions; optimisation-based ones in the thorough tier) x 7 representations of a 3-variable argument "
+            "distributions; optimisation-based ones in the thorough tier) x 7 representations of a 3-variable argument (every callable of the tier's registry meets every representation in each run) "
             "(sparse/dense, linear/log2/loge, named, untrimmed with stored zeros, custom sample space) x random "
             "interleavings of 12 calls; snapshot of every argument (outcomes, pmf bytes, base, sparse flag, alphabet, "
             "sample space, names, mask, rv mode, PRNG state, index), of ditParams, the ops cache keys, NumPy's error "
@@ -206,10 +206,20 @@ class C10(object):
     modelled = "the theorem is the model's frame condition; the force for dit comes from this differential run"
 
     def gen(self, rng, tier):
-        n_cases = 42 if tier == 'quick' else 500
+        # quick: 12 cycles of the 7 representations; cycle b calls registry entries 12b .. 12b+11, so that every
+        # callable of the quick registry meets every representation at least once per run
+        n_cases = 84 if tier == 'quick' else 500
         for i in range(n_cases):
             c = gen.rand_dist_case(rng, nmin=3, nmax=3, amax=2, bases=['linear'], allow_space=False, allow_names=False,
                                    max_support=7, klasses=('str', 'tuple'))
+            # mostly non-degenerate arguments (>= 4 outcomes, no constant variable): purity bugs hide behind fixed points
+            tries = 0
+            while (i % 6 != 5 and tries < 50
+                   and (len(c['outs']) < 4 or any(len(set(o[k] for o in c['outs'])) < 2 for k in range(3))
+                        or sum(1 for p in c['pmf'] if Fraction(p) > Fraction(1, 50)) < 4)):
+                c = gen.rand_dist_case(rng, nmin=3, nmax=3, amax=2, bases=['linear'], allow_space=False,
+                                       allow_names=False, max_support=7, klasses=('str', 'tuple'))
+                tries += 1
             gen.avoid_subnull(c)
             pv, _ = gen.rand_prob_vector(rng, len(c['outs']), 'small')
             if all(p > 0 for p in pv):
@@ -219,6 +229,7 @@ class C10(object):
             c['rep'] = REPRESENTATIONS[i % len(REPRESENTATIONS)]
             c['seed'] = rng.randrange(2 ** 31)
             c['ncalls'] = 12 if tier == 'quick' else 20
+            c['slot'] = i // len(REPRESENTATIONS)
             yield c
 
     def shrink(self, case):
@@ -269,7 +280,10 @@ class C10(object):
         if case.get('only'):
             seq = [case['only']] * 2
         else:
-            seq = [names[int(i)] for i in rs.randint(len(names), size=case['ncalls'])]
+            nsys = 12 if tier == 'quick' else 10
+            sysnames = [names[(case.get('slot', 0) * nsys + j) % len(names)] for j in range(nsys)]
+            seq = sysnames + [names[int(i)] for i in rs.randint(len(names), size=case['ncalls'] - nsys)]
+            seq = [seq[int(i)] for i in rs.permutation(len(seq))]
         case['_called'] = sorted(set(seq))
         r.nontrivial = len(set(seq)) >= 8
         for nm in set(seq):
